@@ -99,7 +99,11 @@ CONFIG = {
              "non-trivial = every case; distinct = one per pattern",
     ),
     "C11": dict(
-        drivers=[("cmd/whawty-auth", "main")], run="C11", shard=10, timeout=900, race=True,
+        parts=[dict(drivers=[("cmd/whawty-auth", "main")], run="C11", shard=10, timeout=900, race=True),
+               # the web layer in front of the dispatcher: request sequences (several connections) judged by the
+               # web API model - every answer is the sequential one, whatever other connections sent before
+               dict(drivers=[("cmd/whawty-auth", "main")], driver_prop="C11W", run="C06", shard=2, case_type="wcase",
+                    header="From Whawty Require Import Names Record Store StoreSpec Session WebApi.")],
         rule="concurrent histories at the agent's Store interface: 2-8 client goroutines x 4-8 operations (authenticate, update, add, remove, set-admin) on 2-4 overlapping users with a pool of 3 passwords, "
              "upgrades off and local (users start on non-default parameter sets), call/return times recorded, followed by a sequential read-out of every (user, password) pair; "
              "each history is decided by a linearizability search against the sequential specification (evaluated in Coq), per user; the driver is built with -race; "
